@@ -74,11 +74,29 @@ Ros2Fails(e) ==
 \* ---- C19 -------------------------------------------------------------------
 \* two calls that model the same system: same Ok value / both Err
 SameResult(a, b) == (IsOk(a) /\ IsOk(b) /\ a.ok = b.ok) \/ (IsErr(a) /\ IsErr(b))
+\* Event source versus FIFO on a dedicated processor, with the recorded request-bound table tab (index x+1 = demand of
+\* a window of length x): both maximise V(A) = demand(A + 1) - A over the offsets A of the busy window of length
+\* L = least x >= 1 with demand(x) <= x; fifo::dedicated_uniproc_rta takes A < L, ros2::rta_event_source takes A <= L.
+\* The two differ exactly when the demand steps at offset L itself (possible only if the bound is not sub-additive).
+EsFifoBoundary(e) ==
+    LET tab == e.in.tab
+        Dm(x) == tab[MinOf(x, Len(tab) - 1) + 1]
+        Ls == {x \in 1..e.in.lim : Dm(x) <= x}
+    IN IF Ls = {} \/ ~(IsOk(e.out.rs[1]) /\ IsOk(e.out.rs[2])) THEN FALSE
+       ELSE LET L == SetMin(Ls)
+                V(A) == Dm(A + 1) - A
+                excl == SetMax({V(A) : A \in 0..(L - 1)})
+                incl == MaxOf(excl, V(L))
+            IN e.out.rs[2].ok = excl /\ e.out.rs[1].ok = incl /\ incl > excl
+
 AgreeFails(e) ==
     IF "rs" \notin DOMAIN e.out THEN {"returns"}
     ELSE IF \E i \in 1..Len(e.out.rs) : ("panic" \in DOMAIN e.out.rs[i] \/ "hang" \in DOMAIN e.out.rs[i])
     THEN {"returns"}
-    ELSE IF \A i \in 2..Len(e.out.rs) : SameResult(e.out.rs[1], e.out.rs[i]) THEN {} ELSE {e.in.family}
+    ELSE IF \A i \in 2..Len(e.out.rs) : SameResult(e.out.rs[1], e.out.rs[i]) THEN {}
+    ELSE IF e.in.family = "event_source_eq_fifo_on_dedicated" /\ "tab" \in DOMAIN e.in /\ EsFifoBoundary(e)
+    THEN {"event_source_counts_the_offset_at_the_busy_window_end"}
+    ELSE {e.in.family}
 
 \* equal relative deadlines: the largest NP-EDF bound over all tasks = the FIFO bound
 AgreeMaxFails(e) ==
